@@ -219,6 +219,16 @@ def check_sequence(chk, mname, seq, table, stats):
                 _violation(chk, mname, done, "unserializable", f"the result no longer serializes/deserializes: {rt_a[2]}", proto_before, cur, None)
                 return
             obligations.append(("serialized round trip", rt_b[0], rt_a[0], rt_b[1], rt_a[1]))
+        # concrete side-oracle (not solver-decided): the ONNX checker's verdict must not get worse at any step
+        if VALID.get(mname):
+            import onnx
+
+            try:
+                onnx.checker.check_model(ir.to_proto(cur), full_check=True)
+            except Exception as e:  # noqa: BLE001
+                chk.violation(f"C05:{mname}:{pname}:checker-rejects", f"model '{mname}' is accepted by the ONNX checker; after passes {list(done)} it is rejected: {str(e).splitlines()[0][:200]}",
+                              dict(model=mname, seq=list(done), kind="checker"))
+                return
         for what, b, a, nb, na in obligations:
             chk.obligations += 1
             if nb != na:
@@ -239,15 +249,6 @@ def check_sequence(chk, mname, seq, table, stats):
                 chk.note_inconclusive(f"{label}: solver answered {r}")
     stats["sequences"] += 1
     chk.case(label)
-    # concrete side-oracle (not solver-decided): the ONNX checker's verdict must not get worse
-    if VALID.get(mname):
-        import onnx
-
-        try:
-            onnx.checker.check_model(ir.to_proto(cur), full_check=True)
-        except Exception as e:  # noqa: BLE001
-            chk.violation(f"C05:{mname}:{seq[-1]}:checker-rejects", f"model '{mname}' is accepted by the ONNX checker; after passes {list(seq)} it is rejected: {str(e).splitlines()[0][:200]}",
-                          dict(model=mname, seq=list(seq), kind="checker"))
 
 
 VALID: dict = {}
